@@ -13,6 +13,7 @@ package main
 import (
 	"bytes"
 	"fmt"
+	"os"
 	"regexp"
 	"runtime/debug"
 	"sort"
@@ -166,8 +167,9 @@ type operation struct {
 var binaryOps = map[string]bool{"+": true, "-": true, "*": true, "/": true, "**": true, "%": true, "<<": true, ">>": true, "<<<": true, ">>>": true,
 	"&": true, "|": true, "^": true, "&~": true, "==": true, "=~": true, "<": true, "<=": true, ">": true, ">=": true, "<=>": true}
 var unaryOps = map[string]string{"-@": "-", "+@": "+", "~": "~"}
-var amplifying = map[string]bool{"<<": true, ">>": true, "<<<": true, ">>>": true, "**": true, "*": true, "repeat": true, "ljust": true, "rjust": true, "grow": true, "center": true}
+var amplifying = map[string]bool{"<<": true, ">>": true, "<<<": true, ">>>": true, "**": true, "*": true, "repeat": true, "ljust": true, "rjust": true, "grow": true, "center": true, "set_precision": true, "p": true}
 
+var setterRe = regexp.MustCompile(`^[a-zA-Z_][a-zA-Z0-9_]*=$`)
 var skipMethod = regexp.MustCompile(`^(to_ast_.*|class|iter|.*_iter|hash|copy|sleep.*)$`)
 
 var typeEnv *types.GlobalEnvironment
@@ -205,7 +207,7 @@ func operationsOf(k *kind) []operation {
 	var ops []operation
 	for _, n := range names {
 		m := byName[n]
-		if m.OverloadId != 0 || regexp.MustCompile(`@\d+$`).MatchString(n) || skipMethod.MatchString(n) || m.IsSetter() || n == "[]=" {
+		if m.OverloadId != 0 || regexp.MustCompile(`@\d+$`).MatchString(n) || skipMethod.MatchString(n) || setterRe.MatchString(n) || n == "[]=" {
 			continue
 		}
 		if m.IsAbstract() || m.IsMacro() || m.IsGenerator() || m.IsAsync() {
@@ -749,6 +751,9 @@ func run(c *engine.Ctx) {
 				tuples = t2
 			}
 			id := fmt.Sprintf("%s/%s", k.name, strings.TrimPrefix(strings.TrimPrefix(op.label, "op="), "method="+k.name+"#"))
+			if only := os.Getenv("C08_ONLY"); only != "" && only != id {
+				continue // development aid: run a single case
+			}
 			c.Case(id, func(r *engine.R) { runCase(c, r, &op, tuples) })
 		}
 	}
@@ -793,6 +798,7 @@ func outcomeOf(ir itemRes) string {
 }
 
 var negLit = regexp.MustCompile(`^\(-`)
+var firstNumRe = regexp.MustCompile(`\d+`)
 
 func runCase(c *engine.Ctx, r *engine.R, op *operation, argTuples [][]*kind) {
 	shift := op.token == "<<" || op.token == ">>" || op.token == "<<<" || op.token == ">>>"
@@ -829,6 +835,18 @@ func runCase(c *engine.Ctx, r *engine.R, op *operation, argTuples [][]*kind) {
 		}
 		if op.token == "**" {
 			recvVals = smallOnly(recvVals)
+			// x ** 127i8 and x ** 255u8 never terminate in any form, the constant folder included (C07's territory)
+			for i := range argVals {
+				var keep []string
+				for _, v := range argVals[i] {
+					var n int
+					fmt.Sscanf(firstNumRe.FindString(v), "%d", &n)
+					if n <= 100 {
+						keep = append(keep, v)
+					}
+				}
+				argVals[i] = keep
+			}
 		}
 		var rec func(i int, cur []string)
 		rec = func(i int, cur []string) {
@@ -1162,6 +1180,7 @@ func opFamily(op *operation) string {
 
 var ofClassRe = regexp.MustCompile(` of class: [^@]*`)
 
+var quotedValRe = regexp.MustCompile("value `+[^ ]*`+")
 var funcNRe = regexp.MustCompile(`vm\.init\w+\.func\d+`)
 
 // panicKey normalises "GOPANIC <msg> @ frame @ frame": the receiver class and value are dropped and only the
@@ -1169,6 +1188,7 @@ var funcNRe = regexp.MustCompile(`vm\.init\w+\.func\d+`)
 func panicKey(o string) string {
 	o = strings.TrimPrefix(o, "GOPANIC ")
 	o = ofClassRe.ReplaceAllString(o, " ")
+	o = quotedValRe.ReplaceAllString(o, "value `_`")
 	parts := strings.Split(o, " @ ")
 	if len(parts) > 2 {
 		parts = parts[:2]
